@@ -542,3 +542,70 @@ pub proof fn lemma_reset<T, U>(ix0: Seq<usize>, ix1: Seq<usize>, len1: usize, r:
         None => {}
     }
 }
+
+// ---- Append: n pushes at the back, one per new item (needs prelude/loops.rs: mask_filter, mask_positions)
+pub proof fn lemma_append_steps<T, U>(ix0: Seq<usize>, ix1: Seq<usize>, orig: Seq<T>, values: Seq<T>, fs: spec_fn(T) -> Option<U>, mask: Seq<bool>)
+    requires
+        finv(ix0, orig.len() as usize, orig, fs),
+        orig.len() + values.len() < usize::MAX,
+        mask.len() == values.len(),
+        forall|j: int| 0 <= j < values.len() ==> mask[j] == (#[trigger] fs(values[j]) is Some),
+        ix1 =~= ix0 + mask_positions(mask, orig.len() as int),
+    ensures
+        finv(ix1, (orig.len() + values.len()) as usize, orig + values, fs),
+        view_of(ix1, orig + values, fs) == view_of(ix0, orig, fs) + fmap(values, fs),
+    decreases values.len(),
+{
+    if values.len() == 0 {
+        assert(orig + values =~= orig);
+        assert(ix1 =~= ix0);
+        assert(view_of(ix0, orig, fs) + fmap(values, fs) =~= view_of(ix0, orig, fs));
+    } else {
+        let v1 = values.drop_last();
+        let m1 = mask.drop_last();
+        let ixm = ix0 + mask_positions(m1, orig.len() as int);
+        assert forall|j: int| 0 <= j < v1.len() implies m1[j] == (#[trigger] fs(v1[j]) is Some) by { assert(v1[j] == values[j]); }
+        lemma_append_steps(ix0, ixm, orig, v1, fs, m1);
+        let o1 = orig + v1;
+        let value = values.last();
+        assert(o1.push(value) =~= orig + values);
+        assert(mask.last() == (fs(values[values.len() - 1]) is Some));
+        let res: Option<VectorDiff<U>> = match fs(value) { Some(u) => Some(VectorDiff::PushBack { value: u }), None => None };
+        if mask.last() { assert(ix1 =~= ixm.push(o1.len() as usize)); } else { assert(ix1 =~= ixm); }
+        lemma_push_back(ixm, ix1, res, o1, fs, value);
+        match fs(value) {
+            Some(u) => { assert(view_of(ix0, orig, fs) + fmap(values, fs) =~= (view_of(ix0, orig, fs) + fmap(v1, fs)).push(u)); }
+            None => {}
+        }
+    }
+}
+pub proof fn lemma_mask_filter_is_fmap<T>(values: Seq<T>, ps: spec_fn(T) -> bool, mask: Seq<bool>)
+    requires mask.len() == values.len(), forall|j: int| 0 <= j < values.len() ==> mask[j] == #[trigger] ps(values[j]),
+    ensures mask_filter(values, mask) == fmap(values, pfs(ps)),
+    decreases values.len(),
+{
+    if values.len() > 0 {
+        let v1 = values.drop_last();
+        let m1 = mask.drop_last();
+        assert forall|j: int| 0 <= j < v1.len() implies m1[j] == #[trigger] ps(v1[j]) by { assert(v1[j] == values[j]); }
+        lemma_mask_filter_is_fmap(v1, ps, m1);
+        assert(mask.last() == ps(values[values.len() - 1]));
+    }
+}
+pub proof fn lemma_append<T, U>(ix0: Seq<usize>, ix1: Seq<usize>, res: Option<Vector<U>>, orig: Seq<T>, values: Seq<T>, fs: spec_fn(T) -> Option<U>, mask: Seq<bool>)
+    requires
+        finv(ix0, orig.len() as usize, orig, fs),
+        orig.len() + values.len() < usize::MAX,
+        mask.len() == values.len(),
+        forall|j: int| 0 <= j < values.len() ==> mask[j] == (#[trigger] fs(values[j]) is Some),
+        ix1 =~= ix0 + mask_positions(mask, orig.len() as int),
+        match res { Some(v) => v@ == fmap(values, fs) && v@.len() > 0, None => fmap(values, fs).len() == 0 },
+    ensures
+        fstep(ix0, ix1, (orig.len() + values.len()) as usize, app_res(res), orig, orig + values, fs),
+{
+    lemma_append_steps(ix0, ix1, orig, values, fs, mask);
+    match res {
+        Some(v) => {}
+        None => { assert(view_of(ix0, orig, fs) + fmap(values, fs) =~= view_of(ix0, orig, fs)); }
+    }
+}
